@@ -19,13 +19,14 @@
 
    The walker's output ORDER is not modelled (the property and the harness
    look at the sorted list): entries are visited in file-id order and the
-   result is sorted by file id.  Multiplicity IS modelled (the real code can
-   emit the same change twice, see C10_generic_duplicates).
+   result is sorted by file id.  Multiplicity IS modelled (C10_no_duplicates).
 
    The model assumes both trees resolve a path filter to the same id set
    (true for two revision trees and for revision tree vs working tree; the
    dirstate-specific paths2ids of a working tree against its own basis tree
-   object is NOT modelled -- see notes/C10.md finding "generic-wt-basis").
+   object is NOT modelled; since b7b83f3 the walker looks the other side's
+   entry up when the selections differ, which is a no-op under this assumption:
+   the harness checks that combination with the oracle only).
 
    No proofs here. *)
 From Coq Require Import List NArith ZArith Bool Arith String.
@@ -143,7 +144,8 @@ Fixpoint handle (fuel : nat) (a b : tree) (disc : list change) (P C : list fid)
                                          | Some pa => opt_list (id_of_path a pa)
                                          | None => []
                                          end) P1 in
-          let cur := dedupe (P1 ++ olds) in
+          (* since 5cddeb1: changed_file_ids is subtracted again after adding the old ids *)
+          let cur := filter (fun i => negb (mem i C)) (dedupe (P1 ++ olds)) in
           match map_opt (examine a b disc) cur with
           | None => None
           | Some rs =>
@@ -180,8 +182,9 @@ Definition generic (a b : tree) (F : option (list path)) (incl : bool) : option 
 
 (* ---------------------------------------------------- the CHK fast path *)
 
-Definition unchanged_change (b : tree) (i : fid) (e : entry) : change :=
-  mkChange i (path_of b i, path_of b i) false (true, true)
+(* since b515e80 the source path is source.id2path(file_id) *)
+Definition unchanged_change (a b : tree) (i : fid) (e : entry) : change :=
+  mkChange i (path_of a i, path_of b i) false (true, true)
     (e_parent e, e_parent e) (Some (e_name e), Some (e_name e))
     (Some (e_kind e), Some (e_kind e)) (Some (e_exec e), Some (e_exec e)).
 
@@ -205,7 +208,7 @@ Definition chk (a b : tree) (F : option (list path)) (incl : bool) : option (lis
   | Some (out, C) =>
       Some (out ++ (if incl
                     then flat_map (fun ie => if in_sel S (fst ie) && negb (mem (fst ie) C)
-                                             then [unchanged_change b (fst ie) (snd ie)] else []) b
+                                             then [unchanged_change a b (fst ie) (snd ie)] else []) b
                     else []))
   end.
 
